@@ -4,7 +4,7 @@ import json, os, glob
 V = os.path.dirname(os.path.dirname(os.path.abspath(__file__)))
 LEVEL = {
  "C01": ("dispatch through the real NewRouter/Context/DefaultRouter/denco stack for every request target = concrete prefix ⧺ ≤2 (quick) / ≤4 (thorough) arbitrary path bytes × 5 method spellings × 4 API descriptions; reference dispatcher as oracle; every branch feasibility decided by SMT (or exact byte-domain evaluation), counterexamples replayed natively", "DESIGN.md §2 C01"),
- "C02": ("exhaustive symbolic execution of the real untyped stack (router → secure API → binder → handler → Respond) over 12 requirement structures × global/per-operation × authorizer × all per-scheme outcomes; declarative OR-of-ANDs oracle", "DESIGN.md §2 C02"),
+ "C02": ("exhaustive symbolic execution of the real untyped stack (router → secure API → binder → handler → Respond) over 12 requirement structures × global/per-operation × authorizer × all per-scheme outcomes × request otherwise valid/invalid; declarative OR-of-ANDs oracle", "DESIGN.md §2 C02, §8.3"),
  "C03": ("the real untyped binder (UntypedRequestBinder.Bind → untypedParamBinder → strconv/swag/reflect model) executed symbolically for every parameter text up to the per-kind length over the declaration lattice kinds × locations × required × default × allowEmptyValue × occurrences (quick: two slices of it, thorough: the product incl. 21-byte int64 texts), arrays in every collection format, and a four-parameter operation through the whole untyped stack; oracle = literal denotation [+-]?[0-9]+ with width range, swag's boolean true-set, reference split; declared validations are a nondeterministic stub", "DESIGN.md §2 C03"),
  "C04": ("client transport and server middleware built from one description and joined by an in-memory wire (RequestURI text → ParseRequestURI, header map, body bytes), executed symbolically end to end through Runtime.Submit → router → binder → handler → Respond → response adapter: every byte string of ≤2 (quick) / ≤3 (thorough) bytes as path value and ≤1 / ≤2 bytes as query, header, urlencoded-form and repeated query values; answer direction with symbolic header and body bytes", "DESIGN.md §2 C04"),
  "C05": ("bounded symbolic execution of the real denco Build/Lookup: every lookup path of ≤4 (quick) / ≤7 (thorough) arbitrary bytes against each catalogue table and build order; paths around every pattern of 6 route-set-like tables (pattern instance cut anywhere ⧺ arbitrary bytes); a generated table of 4 500 (7 500) records with >100 000 trie slots and symbolic tails; naive segment matcher as oracle", "DESIGN.md §2 C05, §8.3"),
@@ -18,7 +18,7 @@ LEVEL = {
  "C13": ("Runtime.Submit executed symbolically behind a scripted RoundTripper ((*http.Client).Do modelled as Transport.RoundTrip): consumer selection for every response Content-Type = absent / spelling (+ parameter) / spelling ⧺ ≤1 (quick) / ≤2 (thorough) arbitrary bytes / ≤2 / ≤3 raw bytes over 5 registries, status codes and header sets through the response adapter; client/context precedence over call histories of 2 (3) (exhaustive); shared-write monitor over one Submit from a Runtime whose client exists, is created by this call, or was supplied without transport (inductive step for any number of concurrent callers)", "DESIGN.md §2 C13, §8.3"),
  "C14": ("client credential writers composed with the server authenticators on the same *http.Request: user/password/token of ≤2 (quick) / ≤4 (thorough) symbolic bytes through the real base64 encode/decode, header/query/form placements and precedence, default-auth lattice", "DESIGN.md §2 C14"),
  "C18": ("exhaustive symbolic execution of TLSClientAuth over the whole option lattice with the crypto/file environment stubbed by nondeterministic outcomes; witnesses replayed against real crypto with the repository's fixtures", "DESIGN.md §2 C18"),
- "C19": ("verify() on duplicate-free lists of ≤2 (quick) / ≤3 (thorough) one-byte symbolic names with set-equality/sortedness oracles decided by SMT; Validate() over description × registration-variation catalogue (exact, each omission, additions)", "DESIGN.md §2 C19"),
+ "C19": ("verify() on duplicate-free lists of ≤2 (quick) / ≤3 (thorough) one-byte symbolic names with set-equality/sortedness oracles decided by SMT; Validate() over description × registration-variation catalogue (exact, each omission, additions); every declared operation of 4 validated descriptions served through the real untyped stack under every declared request and response media type", "DESIGN.md §2 C19, §8.3"),
  "C20": ("spec and UI middlewares over option catalogues with symbolic bytes and request paths = document path variants ⧺ symbolic tails / raw symbolic bytes; composition as built by the API handlers over absolute spec URLs", "DESIGN.md §2 C20"),
  "C15": ("byte-stream and text consumers/producers executed symbolically for contents of ≤2 (quick) / ≤3 (thorough) symbolic bytes over every documented destination/payload kind (plus nil, non-pointer, unsupported, pre-populated), readers with arbitrary chunking, empty reads, data+EOF and failures after any byte, sinks failing at any offset, closing option on/off; reflect calls through the engine's reflect model", "DESIGN.md §2 C15"),
  "C16": ("CSV consumer/producer over every CSV text of ≤3 (quick) / ≤4 (thorough) symbolic bytes through the real encoding/csv reader/writer, 8 option sets, 10 destination and 8 source kinds (incl. io.WriterTo through the real io.Pipe/errgroup goroutines); oracle = csv.Reader.ReadAll with the same options; kinds agree pairwise, no partial success, no aliasing, no panic for any destination pre-state", "DESIGN.md §2 C16"),
